@@ -16,7 +16,7 @@ for d in seeded/$pat/; do
 done
 python3 - "$out" "$tier" "$pat" <<'PY'
 import sys,json,collections
-rows=[l.rstrip('\n').split(' ',3) for l in open(sys.argv[1]) if l.strip()]
+rows=[l.rstrip('\n').split(' ',3) for l in open(sys.argv[1], errors='replace') if l.strip()]
 tier=sys.argv[2]
 m=collections.OrderedDict()
 import os
